@@ -380,10 +380,20 @@ impl FileSpec {
         Ok(log_files)
     }
 
-    // Files are sorted by their name without suffixes and restart counter, then by the restart counter
-    // (numerically; a file without restart counter comes first), such that the order does not depend
-    // on the suffix or on the number of digits of the restart counter.
-    fn sort_key(&self, path: &Path) -> (String, Option<(usize, String)>, String) {
+    // Files are sorted by their name without suffixes, number and restart counter, then by the number
+    // of a number infix and by the restart counter (both numerically; a file without restart counter
+    // comes first), such that the order does not depend on the suffix or on the number of digits
+    // of the number or of the restart counter.
+    #[allow(clippy::type_complexity)]
+    fn sort_key(
+        &self,
+        path: &Path,
+    ) -> (
+        String,
+        Option<(usize, String)>,
+        Option<(usize, String)>,
+        String,
+    ) {
         let name = path
             .file_name()
             .map(|s| s.to_string_lossy().to_string())
@@ -395,18 +405,37 @@ impl FileSpec {
                 .and_then(|s| s.strip_suffix('.'))
                 .unwrap_or(stem);
         }
-        match stem.rsplit_once(".restart-") {
+        let (main, restart) = match stem.rsplit_once(".restart-") {
             Some((main, digits))
                 if !digits.is_empty() && digits.bytes().all(|b| b.is_ascii_digit()) =>
             {
                 let number = digits.trim_start_matches('0');
+                (main, Some((number.len(), number.to_string())))
+            }
+            _ => (stem, None),
+        };
+        // the number of a number infix can outgrow its five digits
+        // (without basename and discriminant the name starts with the infix)
+        let split = main
+            .rsplit_once("_r")
+            .map(|(head, digits)| (format!("{head}_r"), digits))
+            .or_else(|| {
+                main.strip_prefix('r')
+                    .map(|digits| ("r".to_string(), digits))
+            });
+        match split {
+            Some((head, digits))
+                if !digits.is_empty() && digits.bytes().all(|b| b.is_ascii_digit()) =>
+            {
+                let number = digits.trim_start_matches('0');
                 (
-                    main.to_string(),
+                    head,
                     Some((number.len(), number.to_string())),
+                    restart,
                     name.clone(),
                 )
             }
-            _ => (stem.to_string(), None, name.clone()),
+            _ => (main.to_string(), None, restart, name.clone()),
         }
     }
 
